@@ -2,6 +2,22 @@ import PsVerif.Model.Scanner
 import PsVerif.Props.Cipher
 /-
 Byte-stream theorems underneath property C05 (`eexec`), for plaintexts, prefixes and layouts of ANY length.
+Statements and their reading: `Props/C05.lean`.
+
+Contents
+* cipher: `decrypt_append`, `stateAfter_append` (`nextR`/`keyByte` are kept irreducible: the unifier must not unfold
+  `UInt16` arithmetic on symbolic bytes).
+* raw reads and hexadecimal pairs: `readByteRaw_src/_peek`, `SpellsByte`, `HexTail`, `readHexPair_spell`.
+* one decrypted byte in either mode: `Layout`, `readByte_enc`.
+* simulation: `Sim` (the invariant: mode, no replay, equal peek buffers, raw source = layout of the remaining cipher
+  bytes ++ rest, register = `stateAfter eexecR` of the consumed cipher bytes, plain source = decryption of the
+  remaining cipher bytes), `Exhausted`, `SimM` and its closure lemmas, `SimM.readByte/next/peek/peekN/…`.
+* `beginEexec`: clear phase (`skipEexecSpace_clear`, `peekN_clear`, `beginEexec_front`), replay phase
+  (`next_ov_bin`, `next_ov_hex`, `next_ov_enc`), `beginEexec_binary_raw`, `beginEexec_hex_raw`.
+* the stream: `Sim.next_step`, `Sim.readN_steps`, `Sim.position`, `eexec_begin_binary`, `eexec_begin_hex`,
+  `eexec_stream`.
+* `endEexec`: `endEexec_run`, `Sim.endEexec_at_end`; look-ahead past the end: `Sim.peek_past_end_binary`.
+* tokenizer loops at equal fuel: `SimM.readRegular`, `SimM.readStringBody`, ….
 -/
 namespace PsVerif.Proofs.EexecStream
 open PsVerif.Model PsVerif.Model.Scan PsVerif.Model.Cipher
@@ -215,18 +231,20 @@ theorem bump_eq (b : UInt8) :
   · rfl
   · split <;> rfl
 
-/-- `se` is a scanner inside an eexec section (mode 1 = hex, 2 = binary) whose raw source is the layout of some
-cipher bytes `cs` followed by the clear text `rest`; `sp` is the plain scanner (eexec off) whose source is the
-decryption of `cs` under the current register of `se`. Everything else (peek buffer, position, DSC comments, sticky
+/-- `se` is a scanner inside an eexec section (mode 1 = hex, 2 = binary) over the cipher text `cipher` (random
+prefix included): the cipher bytes `done` have been consumed, the register is the one reached after them, the raw
+source is the layout of the remaining cipher bytes `cs` followed by the clear text `rest`; `sp` is the plain scanner
+(eexec off) whose source is the decryption of `cs` under the current register of `se`. Everything else (peek buffer, position, DSC comments, sticky
 error) agrees. -/
-structure Sim (mode : Nat) (rest : List UInt8) (se sp : Scanner) : Prop where
+structure Sim (mode : Nat) (cipher rest : List UInt8) (se sp : Scanner) : Prop where
   mode_ok : mode = 1 ∨ mode = 2
   eexec_e : se.eexec = mode
   eexec_p : sp.eexec = 0
   reg_e : se.regurgitate = false
   reg_p : sp.regurgitate = false
   peek_eq : se.peek = sp.peek
-  stream : ∃ cs t, Layout mode cs t ∧ se.src = t ++ rest ∧ sp.src = decrypt se.r cs
+  stream : ∃ done cs t, cipher = done ++ cs ∧ Layout mode cs t ∧ se.src = t ++ rest ∧
+    se.r = stateAfter eexecR done ∧ sp.src = decrypt se.r cs
   line_eq : se.line = sp.line
   col_eq : se.col = sp.col
   crSeen_eq : se.crSeen = sp.crSeen
@@ -241,15 +259,15 @@ def Exhausted (sp : Scanner) : Prop :=
 /-- `m` cannot tell an eexec-encrypted source from its plaintext: run on `Sim`-related states it gives the same
 result (value or error) and `Sim`-related states, unless the plain side runs into the end of the plaintext. -/
 def SimM {α : Type} (m : SM α) : Prop :=
-  (∀ mode rest se sp, Sim mode rest se sp →
-    (∃ r se' sp', m se = (r, se') ∧ m sp = (r, sp') ∧ Sim mode rest se' sp') ∨ Exhausted (m sp).2) ∧
+  (∀ mode cipher rest se sp, Sim mode cipher rest se sp →
+    (∃ r se' sp', m se = (r, se') ∧ m sp = (r, sp') ∧ Sim mode cipher rest se' sp') ∨ Exhausted (m sp).2) ∧
   (∀ sp, Exhausted sp → Exhausted (m sp).2)
 
 theorem SimM.pure {α : Type} (a : α) : SimM (pure a : SM α) :=
-  ⟨fun _ _ se sp h => Or.inl ⟨.ok a, se, sp, rfl, rfl, h⟩, fun _ h => h⟩
+  ⟨fun _ _ _ se sp h => Or.inl ⟨.ok a, se, sp, rfl, rfl, h⟩, fun _ h => h⟩
 
 theorem SimM.fail {α : Type} (e : Err) : SimM (fail e : SM α) :=
-  ⟨fun _ _ se sp h => Or.inl ⟨.error e, se, sp, rfl, rfl, h⟩, fun _ h => h⟩
+  ⟨fun _ _ _ se sp h => Or.inl ⟨.error e, se, sp, rfl, rfl, h⟩, fun _ h => h⟩
 
 theorem bind_run {α β : Type} (m : SM α) (k : α → SM β) (s : Scanner) :
     (m >>= k) s = match m s with
@@ -263,14 +281,14 @@ theorem bind_run {α β : Type} (m : SM α) (k : α → SM β) (s : Scanner) :
 
 theorem SimM.bind {α β : Type} {m : SM α} {k : α → SM β} (hm : SimM m) (hk : ∀ a, SimM (k a)) : SimM (m >>= k) := by
   constructor
-  · intro mode rest se sp h
-    rcases hm.1 mode rest se sp h with ⟨r, se', sp', h1, h2, h'⟩ | hex
+  · intro mode cipher rest se sp h
+    rcases hm.1 mode cipher rest se sp h with ⟨r, se', sp', h1, h2, h'⟩ | hex
     · cases r with
       | error e =>
         exact Or.inl ⟨.error e, se', sp', bind_err _ _ _ _ _ h1, bind_err _ _ _ _ _ h2, h'⟩
       | ok a =>
         rw [bind_ok _ _ _ _ _ h1, bind_ok _ _ _ _ _ h2]
-        exact (hk a).1 mode rest se' sp' h'
+        exact (hk a).1 mode cipher rest se' sp' h'
     · right
       rw [bind_run]
       generalize hq : m sp = p at hex
@@ -289,8 +307,8 @@ theorem SimM.bind {α β : Type} {m : SM α} {k : α → SM β} (hm : SimM m) (h
 
 theorem SimM.attempt {α : Type} {m : SM α} (hm : SimM m) : SimM (attempt m) := by
   constructor
-  · intro mode rest se sp h
-    rcases hm.1 mode rest se sp h with ⟨r, se', sp', h1, h2, h'⟩ | hex
+  · intro mode cipher rest se sp h
+    rcases hm.1 mode cipher rest se sp h with ⟨r, se', sp', h1, h2, h'⟩ | hex
     · exact Or.inl ⟨.ok r, se', sp', by simp [Scan.attempt, h1], by simp [Scan.attempt, h2], h'⟩
     · exact Or.inr hex
   · intro sp h
@@ -298,10 +316,10 @@ theorem SimM.attempt {α : Type} {m : SM α} (hm : SimM m) : SimM (attempt m) :=
 
 /-- a state update that both sides perform alike -/
 def Benign (f : Scanner → Scanner) : Prop :=
-  (∀ mode rest se sp, Sim mode rest se sp → Sim mode rest (f se) (f sp)) ∧ (∀ sp, Exhausted sp → Exhausted (f sp))
+  (∀ mode cipher rest se sp, Sim mode cipher rest se sp → Sim mode cipher rest (f se) (f sp)) ∧ (∀ sp, Exhausted sp → Exhausted (f sp))
 
 theorem SimM.modS {f : Scanner → Scanner} (hf : Benign f) : SimM (modS f) :=
-  ⟨fun mode rest se sp h => Or.inl ⟨.ok (), f se, f sp, rfl, rfl, hf.1 mode rest se sp h⟩, fun sp h => hf.2 sp h⟩
+  ⟨fun mode cipher rest se sp h => Or.inl ⟨.ok (), f se, f sp, rfl, rfl, hf.1 mode cipher rest se sp h⟩, fun sp h => hf.2 sp h⟩
 
 /-- reading the scanner state is harmless as long as only the peek buffer, the replay flag and the
 position are looked at -/
@@ -309,13 +327,13 @@ theorem SimM.getS_bind {β : Type} (k : List UInt8 → Bool → Nat → Nat → 
     (hk : ∀ p g l c x, SimM (k p g l c x)) :
     SimM (getS >>= fun s => k s.peek s.regurgitate s.line s.col s.crSeen) := by
   constructor
-  · intro mode rest se sp h
+  · intro mode cipher rest se sp h
     have e1 : (getS >>= fun s => k s.peek s.regurgitate s.line s.col s.crSeen) se =
         k se.peek se.regurgitate se.line se.col se.crSeen se := bind_ok _ _ _ _ _ rfl
     have e2 : (getS >>= fun s => k s.peek s.regurgitate s.line s.col s.crSeen) sp =
         k sp.peek sp.regurgitate sp.line sp.col sp.crSeen sp := bind_ok _ _ _ _ _ rfl
     rw [e1, e2, h.peek_eq, h.reg_e, h.reg_p, h.line_eq, h.col_eq, h.crSeen_eq]
-    exact (hk _ _ _ _ _).1 mode rest se sp h
+    exact (hk _ _ _ _ _).1 mode cipher rest se sp h
   · intro sp h
     have e2 : (getS >>= fun s => k s.peek s.regurgitate s.line s.col s.crSeen) sp =
         k sp.peek sp.regurgitate sp.line sp.col sp.crSeen sp := bind_ok _ _ _ _ _ rfl
@@ -323,17 +341,17 @@ theorem SimM.getS_bind {β : Type} (k : List UInt8 → Bool → Nat → Nat → 
     exact (hk _ _ _ _ _).2 sp h
 
 theorem Benign.setPeek (p : List UInt8) : Benign (fun s => { s with peek := p }) :=
-  ⟨fun _ _ _ _ h => ⟨h.mode_ok, h.eexec_e, h.eexec_p, h.reg_e, h.reg_p, rfl, h.stream, h.line_eq, h.col_eq,
+  ⟨fun _ _ _ _ _ h => ⟨h.mode_ok, h.eexec_e, h.eexec_p, h.reg_e, h.reg_p, rfl, h.stream, h.line_eq, h.col_eq,
       h.crSeen_eq, h.dsc_eq, h.err_eq, h.fault_eq⟩,
    fun _ h => h⟩
 
 theorem Benign.pushPeek (b : UInt8) : Benign (fun s => { s with peek := s.peek ++ [b] }) :=
-  ⟨fun _ _ _ _ h => ⟨h.mode_ok, h.eexec_e, h.eexec_p, h.reg_e, h.reg_p, by simp [h.peek_eq], h.stream, h.line_eq,
+  ⟨fun _ _ _ _ _ h => ⟨h.mode_ok, h.eexec_e, h.eexec_p, h.reg_e, h.reg_p, by simp [h.peek_eq], h.stream, h.line_eq,
       h.col_eq, h.crSeen_eq, h.dsc_eq, h.err_eq, h.fault_eq⟩,
    fun _ h => h⟩
 
 theorem Benign.bump (b : UInt8) : Benign (bump b) :=
-  ⟨fun _ _ _ _ h => ⟨h.mode_ok, h.eexec_e, h.eexec_p, h.reg_e, h.reg_p, h.peek_eq, h.stream,
+  ⟨fun _ _ _ _ _ h => ⟨h.mode_ok, h.eexec_e, h.eexec_p, h.reg_e, h.reg_p, h.peek_eq, h.stream,
       by simp [EexecStream.bump, h.line_eq, h.crSeen_eq], by simp [EexecStream.bump, h.col_eq, h.crSeen_eq], rfl,
       h.dsc_eq, h.err_eq, h.fault_eq⟩,
    fun _ h => h⟩
@@ -349,8 +367,8 @@ theorem readByteRaw_end (s : Scanner) (hreg : s.regurgitate = false) (hs : s.src
 /-- **`readByte`**: the decrypting read of the eexec side returns what the plain side reads -/
 theorem SimM.readByte : SimM readByte := by
   constructor
-  · intro mode rest se sp h
-    obtain ⟨cs, t, hl, hse, hsp⟩ := h.stream
+  · intro mode cipher rest se sp h
+    obtain ⟨done, cs, t, hci, hl, hse, hr, hsp⟩ := h.stream
     cases cs with
     | nil =>
       right
@@ -363,7 +381,8 @@ theorem SimM.readByte : SimM readByte := by
       rw [decrypt_cons] at hsp
       have hp := readByteRaw_src sp _ _ (Or.inl h.reg_p) hsp
       rw [← readByte_clear sp h.eexec_p] at hp
-      exact ⟨_, _, _, he, hp, ⟨h.mode_ok, h.eexec_e, h.eexec_p, h.reg_e, h.reg_p, h.peek_eq, ⟨cs, t', hl', rfl, rfl⟩,
+      exact ⟨_, _, _, he, hp, ⟨h.mode_ok, h.eexec_e, h.eexec_p, h.reg_e, h.reg_p, h.peek_eq, ⟨done ++ [c], cs, t', by simp [hci], hl', rfl,
+          by show nextR se.r c = _; rw [stateAfter_append, stateAfter_cons, stateAfter_nil, hr], rfl⟩,
         h.line_eq, h.col_eq, h.crSeen_eq, h.dsc_eq, h.err_eq, h.fault_eq⟩⟩
   · intro sp h
     obtain ⟨h0, hr, hs, he⟩ := h
@@ -894,5 +913,378 @@ theorem beginEexec_hex_raw (s0 : Scanner) (ws : List UInt8) (c1 c2 c3 c4 : UInt8
   unfold afterBegin
   rw [bumps_append]
   exact regurgitate_off _ _ _ _ _
+
+/-! ### the byte stream after `beginEexec` -/
+
+/-- one decrypting read, with the plain side spelled out -/
+theorem Sim.readByte_step {mode : Nat} {cipher rest : List UInt8} {se sp : Scanner} (h : Sim mode cipher rest se sp)
+    (b : UInt8) (x : List UInt8) (hs : sp.src = b :: x) :
+    ∃ se', readByte se = (.ok b, se') ∧ readByte sp = (.ok b, { sp with src := x }) ∧
+      Sim mode cipher rest se' { sp with src := x } := by
+  obtain ⟨done, cs, t, hci, hl, hse, hr, hsp⟩ := h.stream
+  cases cs with
+  | nil => rw [decrypt_nil, hs] at hsp; cases hsp
+  | cons c cs =>
+    obtain ⟨t', hl', he⟩ := readByte_enc mode se c cs t rest h.eexec_e (Or.inl h.reg_e) hl hse
+    rw [decrypt_cons, hs] at hsp
+    obtain ⟨hb, hx⟩ := List.cons.inj hsp
+    have hp := readByteRaw_src sp b x (Or.inl h.reg_p) hs
+    rw [← readByte_clear sp h.eexec_p] at hp
+    rw [← hb] at he
+    exact ⟨_, he, hp, ⟨h.mode_ok, h.eexec_e, h.eexec_p, h.reg_e, h.reg_p, h.peek_eq,
+      ⟨done ++ [c], cs, t', by simp [hci], hl', rfl,
+        by show nextR se.r c = _; rw [stateAfter_append, stateAfter_cons, stateAfter_nil, hr], hx⟩,
+      h.line_eq, h.col_eq, h.crSeen_eq, h.dsc_eq, h.err_eq, h.fault_eq⟩⟩
+
+/-- **`Next` delivers the plaintext**: if the plain side still has the byte `b` (peeked or not), both sides
+return `b`, stay related, and the plain side has advanced by exactly that byte -/
+theorem Sim.next_step {mode : Nat} {cipher rest : List UInt8} {se sp : Scanner} (h : Sim mode cipher rest se sp)
+    (b : UInt8) (x : List UInt8) (hs : sp.peek ++ sp.src = b :: x) :
+    ∃ se' sp', next se = (.ok b, se') ∧ next sp = (.ok b, sp') ∧ Sim mode cipher rest se' sp' ∧
+      sp'.peek ++ sp'.src = x ∧ sp'.peek = sp.peek.tail := by
+  cases hp : sp.peek with
+  | cons b' p =>
+    rw [hp] at hs
+    obtain ⟨rfl, hx⟩ := List.cons.inj hs
+    have hpe : se.peek = b' :: p := by rw [h.peek_eq, hp]
+    exact ⟨_, _, next_peeked se b' p h.reg_e hpe, next_peeked sp b' p h.reg_p hp,
+      (Benign.bump b').1 _ _ _ _ _ ((Benign.setPeek p).1 _ _ _ _ _ h), hx, rfl⟩
+  | nil =>
+    rw [hp] at hs
+    obtain ⟨se', h1, h2, h3⟩ := h.readByte_step b x hs
+    have hpe : se.peek = [] := by rw [h.peek_eq, hp]
+    exact ⟨_, _, next_read se se' b (Or.inl hpe) h1, next_read sp _ b (Or.inl hp) h2,
+      (Benign.bump b).1 _ _ _ _ _ h3, by show sp.peek ++ x = x; rw [hp]; rfl, by show sp.peek = _; rw [hp]; rfl⟩
+
+/-- **`scanner.Read` delivers the plaintext byte-exact**: `k` successive `Next` calls return the next `k`
+plaintext bytes, on both sides, and leave related states with the plain side advanced by `k` -/
+theorem Sim.readN_steps {mode : Nat} {cipher rest : List UInt8} (k : Nat) :
+    ∀ {se sp : Scanner} (acc : List UInt8), Sim mode cipher rest se sp → k ≤ (sp.peek ++ sp.src).length →
+    ∃ se' sp', readN k acc se = (.ok (acc ++ (sp.peek ++ sp.src).take k, none), se') ∧
+      readN k acc sp = (.ok (acc ++ (sp.peek ++ sp.src).take k, none), sp') ∧
+      Sim mode cipher rest se' sp' ∧ sp'.peek ++ sp'.src = (sp.peek ++ sp.src).drop k ∧
+      (sp.peek = [] → sp'.peek = []) := by
+  induction k with
+  | zero =>
+    intro se sp acc h _
+    exact ⟨se, sp, by simp [readN, pure_run], by simp [readN, pure_run], h, rfl, fun h => h⟩
+  | succ k ih =>
+    intro se sp acc h hk
+    cases hl : sp.peek ++ sp.src with
+    | nil => rw [hl] at hk; simp at hk
+    | cons b x =>
+      obtain ⟨se1, sp1, h1, h2, h3, h4, h5⟩ := h.next_step b x hl
+      obtain ⟨se', sp', g1, g2, g3, g4, g5⟩ := ih (acc ++ [b]) h3 (by rw [h4]; rw [hl] at hk; simp at hk; omega)
+      refine ⟨se', sp', ?_, ?_, g3, by rw [g4, h4]; rfl, fun hp => g5 (by rw [h5, hp]; rfl)⟩
+      · unfold readN
+        rw [bind_ok _ _ se se1 (.ok b) (by simp [Scan.attempt, h1])]
+        simp only
+        rw [g1, h4]; simp
+      · unfold readN
+        rw [bind_ok _ _ sp sp1 (.ok b) (by simp [Scan.attempt, h2])]
+        simp only
+        rw [g2, h4]; simp
+
+/-- the position in the cipher text and the register are determined by the number of plaintext bytes that are
+not yet decrypted: with `n = cipher.length - sp.src.length` cipher bytes consumed, the raw source is the layout of
+`cipher.drop n` followed by `rest` and the register is the one after `cipher.take n` -/
+theorem Sim.position {mode : Nat} {cipher rest : List UInt8} {se sp : Scanner} (h : Sim mode cipher rest se sp) :
+    ∃ t, Layout mode (cipher.drop (cipher.length - sp.src.length)) t ∧ se.src = t ++ rest ∧
+      se.r = stateAfter eexecR (cipher.take (cipher.length - sp.src.length)) ∧
+      sp.src = decrypt se.r (cipher.drop (cipher.length - sp.src.length)) := by
+  obtain ⟨done, cs, t, hci, hl, hse, hr, hsp⟩ := h.stream
+  have hlen : cipher.length - sp.src.length = done.length := by
+    rw [hsp, PsVerif.Props.Cipher.decrypt_length, hci, List.length_append]; omega
+  rw [hlen, hci, List.drop_left, List.take_left]
+  exact ⟨t, hl, hse, hr, hsp⟩
+
+/-! ### `endEexec` -/
+
+/-- closing the section switches decryption off and touches nothing else: bytes already decrypted into the peek
+buffer stay there (they are delivered first, as they are), the raw text of the cipher bytes not yet consumed and
+`rest` are read as clear text from now on -/
+theorem endEexec_run (se : Scanner) : endEexec se = (.ok (), { se with eexec := 0 }) := rfl
+
+/-- when the whole plaintext has been decrypted (peeked bytes may be outstanding), closing the section gives
+exactly the plain scanner continued with the clear text `rest` -/
+theorem Sim.endEexec_at_end {mode : Nat} {cipher rest : List UInt8} {se sp : Scanner} (h : Sim mode cipher rest se sp)
+    (hend : sp.src = []) : endEexec se = (.ok (), { sp with src := rest, r := se.r }) := by
+  obtain ⟨done, cs, t, hci, hl, hse, hr, hsp⟩ := h.stream
+  have hcs : cs = [] := by
+    have := congrArg List.length hsp
+    rw [hend, PsVerif.Props.Cipher.decrypt_length] at this
+    exact List.eq_nil_of_length_eq_zero this.symm
+  subst hcs
+  have ht := hl.nil_inv
+  subst ht
+  rw [endEexec_run]
+  obtain ⟨h1, h2, h3, h4, h5, h6, _, h7, h8, h9, h10, h11, h12⟩ := h
+  obtain ⟨src, fault, peek, reg, eexec, r, line, col, crSeen, dsc, err⟩ := se
+  obtain ⟨src', fault', peek', reg', eexec', r', line', col', crSeen', dsc', err'⟩ := sp
+  simp only at *
+  subst h3 h4 h5 h6 h7 h8 h9 h10 h11 h12 hse
+  simp
+
+/-! ### layouts, legality, and the two main theorems -/
+
+/-- binary form: the cipher bytes as they are -/
+def binaryLayout (c : List UInt8) : List UInt8 := c
+
+/-- legality of a binary section (the conditions of the Type 1 book, and exactly what `BeginEexec` needs): the first
+cipher byte is not blank/tab/CR/LF (it would be skipped) and the first four cipher bytes are not all hex digits
+(the section would be taken for hexadecimal) -/
+def BinaryLegal (c : List UInt8) : Prop :=
+  (∀ b, c.head? = some b → isEexecSpace b = false) ∧ (c.take 4).all isHexDigit = false
+
+/-- `t` is a legal hexadecimal layout of `c`: a hex spelling (either case, mixed) with bytes ≤ 32 anywhere
+(`HexTail`) whose first four bytes are hex digits — exactly the condition under which `BeginEexec` chooses hex mode -/
+def HexLayout (c t : List UInt8) : Prop := HexTail c t ∧ (t.take 4).all isHexDigit = true
+
+theorem four_of_length {α : Type} (l : List α) (h : 4 ≤ l.length) : ∃ a b c d y, l = a :: b :: c :: d :: y := by
+  match l, h with
+  | a :: b :: c :: d :: y, _ => exact ⟨a, b, c, d, y, rfl⟩
+
+theorem split_cipher (pre plain : List UInt8) (a1 a2 a3 a4 : UInt8) (y : List UInt8) (hpre : pre.length = 4)
+    (hc : encrypt eexecR (pre ++ plain) = a1 :: a2 :: a3 :: a4 :: y) :
+    decrypt eexecR [a1, a2, a3, a4] = pre ∧ decrypt (stateAfter eexecR [a1, a2, a3, a4]) y = plain := by
+  have h := PsVerif.Props.Cipher.dec_enc eexecR (pre ++ plain)
+  rw [hc] at h
+  have h' : decrypt eexecR ([a1, a2, a3, a4] ++ y) = pre ++ plain := h
+  rw [decrypt_append] at h'
+  exact List.append_inj h' (by rw [PsVerif.Props.Cipher.decrypt_length, hpre]; rfl)
+
+/-- the plain scanner that goes with the state `beginEexec` leaves -/
+def plainOf (s1 : Scanner) (plain : List UInt8) : Scanner := { s1 with eexec := 0, src := plain }
+
+/-- **binary sections**: from any clear scanner state whose pending input (peeked bytes, then source) is
+blank/tab/CR/LF bytes `ws`, the cipher text of `pre ++ plain` (`pre` = the four random bytes) and `rest`,
+`beginEexec` succeeds, consumes exactly `ws` and four cipher bytes — the four peeked bytes are replayed, none is
+lost or duplicated —, and leaves a state `Sim`-related to the plain scanner over `plain`. -/
+theorem eexec_begin_binary (s0 : Scanner) (ws pre plain rest : List UInt8) (hc : Clear s0) (hpk : s0.peek.length ≤ 4)
+    (hpre : pre.length = 4) (hws : ∀ a ∈ ws, isEexecSpace a = true)
+    (hlegal : BinaryLegal (encrypt eexecR (pre ++ plain)))
+    (hs : s0.peek ++ s0.src = ws ++ binaryLayout (encrypt eexecR (pre ++ plain)) ++ rest) :
+    ∃ s1, beginEexec s0 = (.ok (), s1) ∧
+      s1 = afterBegin s0 2 (ws ++ pre) (stateAfter eexecR ((encrypt eexecR (pre ++ plain)).take 4))
+            ((encrypt eexecR (pre ++ plain)).drop 4 ++ rest) ∧
+      Sim 2 (encrypt eexecR (pre ++ plain)) rest s1 (plainOf s1 plain) := by
+  obtain ⟨a1, a2, a3, a4, y, hcy⟩ := four_of_length (encrypt eexecR (pre ++ plain))
+    (by rw [PsVerif.Props.Cipher.encrypt_length, List.length_append, hpre]; omega)
+  rw [hcy] at hlegal ⊢
+  rw [hcy, binaryLayout] at hs
+  obtain ⟨hd1, hd2⟩ := split_cipher pre plain a1 a2 a3 a4 y hpre hcy
+  have hb := beginEexec_binary_raw s0 ws a1 a2 a3 a4 (y ++ rest) hc hpk (by simpa using hs) hws
+    (hlegal.1 a1 rfl) (by simpa using hlegal.2)
+  rw [hd1] at hb
+  refine ⟨_, hb, rfl, ?_⟩
+  exact ⟨Or.inr rfl, rfl, rfl, rfl, rfl, rfl, ⟨[a1, a2, a3, a4], y, y, rfl, Or.inl ⟨rfl, rfl⟩, rfl, rfl, hd2.symm⟩,
+    rfl, rfl, rfl, rfl, rfl, rfl⟩
+
+/-- **hexadecimal sections**: the same for every legal hexadecimal layout `t` of the cipher text: upper, lower or
+mixed case, bytes ≤ 32 anywhere after the first four digits, also immediately after the fourth digit. -/
+theorem eexec_begin_hex (s0 : Scanner) (ws pre plain t rest : List UInt8) (hc : Clear s0) (hpk : s0.peek.length ≤ 4)
+    (hpre : pre.length = 4) (hws : ∀ a ∈ ws, isEexecSpace a = true)
+    (hlay : HexLayout (encrypt eexecR (pre ++ plain)) t)
+    (hs : s0.peek ++ s0.src = ws ++ t ++ rest) :
+    ∃ s1 t', beginEexec s0 = (.ok (), s1) ∧ HexTail ((encrypt eexecR (pre ++ plain)).drop 4) t' ∧
+      s1 = afterBegin s0 1 (ws ++ pre) (stateAfter eexecR ((encrypt eexecR (pre ++ plain)).take 4)) (t' ++ rest) ∧
+      Sim 1 (encrypt eexecR (pre ++ plain)) rest s1 (plainOf s1 plain) := by
+  obtain ⟨a1, a2, a3, a4, y, hcy⟩ := four_of_length (encrypt eexecR (pre ++ plain))
+    (by rw [PsVerif.Props.Cipher.encrypt_length, List.length_append, hpre]; omega)
+  rw [hcy] at hlay ⊢
+  obtain ⟨hd1, hd2⟩ := split_cipher pre plain a1 a2 a3 a4 y hpre hcy
+  obtain ⟨t', ht', hb⟩ := beginEexec_hex_raw s0 ws a1 a2 a3 a4 y t rest hc hpk hs hws hlay.1 hlay.2
+  rw [hd1] at hb
+  refine ⟨_, t', hb, ht', rfl, ?_⟩
+  exact ⟨Or.inl rfl, rfl, rfl, rfl, rfl, rfl, ⟨[a1, a2, a3, a4], y, t', rfl, Or.inr ⟨rfl, ht'⟩, rfl, rfl, hd2.symm⟩,
+    rfl, rfl, rfl, rfl, rfl, rfl⟩
+
+/-- **the stream theorem** for both forms, from the state `beginEexec` leaves: `k ≤ plain.length` successive
+`Next` calls (this is `scanner.Read`, what `readstring` uses) return exactly `plain.take k`; afterwards exactly
+`4 + k` cipher bytes have been consumed: the raw source is the layout of `cipher.drop (4 + k)` followed by `rest`,
+the register is the one after `cipher.take (4 + k)`, nothing is peeked, and the state is still `Sim`-related to
+the plain scanner, which stands before `plain.drop k`. -/
+theorem eexec_stream (mode : Nat) (cipher plain rest : List UInt8) (s1 : Scanner)
+    (hlen : cipher.length = 4 + plain.length) (hpk : s1.peek = [])
+    (hsim : Sim mode cipher rest s1 (plainOf s1 plain)) (k : Nat) (hk : k ≤ plain.length) :
+    ∃ s' sp' t, readN k [] s1 = (.ok (plain.take k, none), s') ∧
+      Sim mode cipher rest s' sp' ∧ sp'.peek = [] ∧ sp'.src = plain.drop k ∧ s'.peek = [] ∧
+      Layout mode (cipher.drop (4 + k)) t ∧ s'.src = t ++ rest ∧
+      s'.r = stateAfter eexecR (cipher.take (4 + k)) := by
+  have hp0 : (plainOf s1 plain).peek = [] := hpk
+  have hl0 : (plainOf s1 plain).peek ++ (plainOf s1 plain).src = plain := by rw [hp0]; rfl
+  obtain ⟨s', sp', h1, _, h3, h4, h5⟩ := Sim.readN_steps k [] hsim (by rw [hl0]; exact hk)
+  rw [hl0] at h1 h4
+  have hp' := h5 hp0
+  rw [hp'] at h4
+  obtain ⟨t, g1, g2, g3, _⟩ := h3.position
+  have hn : cipher.length - sp'.src.length = 4 + k := by
+    have : sp'.src.length = plain.length - k := by
+      have := congrArg List.length h4; simpa using this
+    omega
+  rw [hn] at g1 g3
+  exact ⟨s', sp', t, by simpa using h1, h3, hp', by simpa using h4, by rw [h3.peek_eq, hp'], g1, g2, g3⟩
+
+/-! ### looking past the end of the section -/
+
+/-- **what a look-ahead past the end of the plaintext does (binary form).** When every plaintext byte has been
+delivered (nothing peeked, nothing left to decrypt) and the scanner peeks once more — for instance because the
+plaintext ends in a name such as `closefile` with no delimiter after it inside the section — the first CLEAR byte
+`b` of `rest` is consumed as a cipher byte: its "decryption" `b ^^^ keyByte r` is returned and stays in the peek
+buffer, the register moves on. After `endEexec` that garbage byte is delivered in place of `b`. -/
+theorem Sim.peek_past_end_binary {cipher rest : List UInt8} {se sp : Scanner} (h : Sim 2 cipher rest se sp)
+    (hpk : sp.peek = []) (hend : sp.src = []) (b : UInt8) (rest' : List UInt8) (hr : rest = b :: rest') :
+    Scan.peek se = (.ok (b ^^^ keyByte se.r),
+      { se with peek := [b ^^^ keyByte se.r], src := rest', r := nextR se.r b }) := by
+  obtain ⟨done, cs, t, hci, hl, hse, _, hsp⟩ := h.stream
+  have hcs : cs = [] := by
+    have := congrArg List.length hsp
+    rw [hend, PsVerif.Props.Cipher.decrypt_length] at this
+    exact List.eq_nil_of_length_eq_zero this.symm
+  subst hcs
+  have ht := hl.nil_inv
+  subst ht
+  have hpe : se.peek = [] := by rw [h.peek_eq, hpk]
+  have hsrc : se.src = b :: rest' := by rw [hse, hr]; rfl
+  have h1 := readByteRaw_src se b rest' (Or.inl h.reg_e) hsrc
+  rw [← readByteEexec_bin se h.eexec_e] at h1
+  have h2 := readByte_of_eexec se _ b (by rw [h.eexec_e]; omega) h1
+  rw [EexecStream.peek_eq, getS_bind_run, hpe]
+  unfold peekK
+  simp only
+  rw [bind_ok _ _ _ _ _ h2, modS_bind_run]
+  simp [pure_run, hpe]
+
+/-! ### the scanner's loops at equal fuel
+
+Every loop of the tokenizer that reads only through `next`/`peek`/`peekN` is simulation-invariant for each fixed
+fuel. (What is missing for `scanToken` itself: it computes its fuel from `fuelOf s`, which depends on the length of
+the RAW source and therefore differs between the two sides; one needs in addition that each loop's result does not
+depend on the fuel once the fuel is large enough.) -/
+
+theorem SimM.ite {α : Type} {c : Prop} [Decidable c] {a b : SM α} (ha : SimM a) (hb : SimM b) :
+    SimM (if c then a else b) := by
+  split <;> assumption
+
+theorem SimM.readRegular (fuel : Nat) : ∀ acc, SimM (readRegular fuel acc) := by
+  induction fuel with
+  | zero => intro acc; exact SimM.pure _
+  | succ fuel ih =>
+    intro acc
+    unfold Scan.readRegular
+    refine SimM.bind (SimM.attempt SimM.peek) (fun r => ?_)
+    split
+    · exact SimM.pure _
+    · exact SimM.fail _
+    · split
+      · exact SimM.pure _
+      · exact SimM.bind SimM.skipByte (fun _ => ih _)
+
+theorem SimM.readOctal (n : Nat) : ∀ oct, SimM (readOctal n oct) := by
+  induction n with
+  | zero => intro oct; exact SimM.pure _
+  | succ n ih =>
+    intro oct
+    unfold Scan.readOctal
+    refine SimM.bind (SimM.attempt SimM.peek) (fun r => ?_)
+    split
+    · exact SimM.pure _
+    · exact SimM.fail _
+    · split
+      · exact SimM.pure _
+      · exact SimM.bind SimM.skipByte (fun _ => ih _)
+
+theorem SimM.readHexBody (fuel : Nat) : ∀ res first hi, SimM (readHexBody fuel res first hi) := by
+  induction fuel with
+  | zero => intro _ _ _; exact SimM.fail _
+  | succ fuel ih =>
+    intro res first hi
+    unfold Scan.readHexBody
+    refine SimM.bind SimM.next (fun b => ?_)
+    split
+    · exact SimM.pure _
+    · split
+      · exact ih _ _ _
+      · split
+        · exact SimM.fail _
+        · split <;> exact ih _ _ _
+
+theorem SimM.readStringBody (fuel : Nat) : ∀ res level ign, SimM (readStringBody fuel res level ign) := by
+  induction fuel with
+  | zero => intro _ _ _; exact SimM.fail _
+  | succ fuel ih =>
+    intro res level ign
+    unfold Scan.readStringBody
+    refine SimM.bind SimM.next (fun b => ?_)
+    repeat' (first
+      | exact ih _ _ _
+      | refine SimM.ite ?_ ?_
+      | refine SimM.bind SimM.next (fun e => ?_)
+      | refine SimM.bind (SimM.readOctal _ _) (fun _ => ?_)
+      | exact SimM.pure _)
+
+theorem SimM.readA85Body (fuel : Nat) : ∀ res pos val, SimM (readA85Body fuel res pos val) := by
+  induction fuel with
+  | zero => intro _ _ _; exact SimM.fail _
+  | succ fuel ih =>
+    intro res pos val
+    unfold Scan.readA85Body
+    refine SimM.bind SimM.next (fun b => ?_)
+    repeat' (first
+      | exact ih _ _ _
+      | refine SimM.ite ?_ ?_
+      | exact SimM.pure _
+      | exact SimM.fail _)
+
+theorem SimM.skipToEOL (fuel : Nat) : SimM (skipToEOL fuel) := by
+  induction fuel with
+  | zero => exact SimM.pure _
+  | succ fuel ih =>
+    unfold Scan.skipToEOL
+    refine SimM.bind (SimM.attempt SimM.next) (fun r => ?_)
+    split
+    · exact SimM.pure _
+    · exact SimM.ite (SimM.pure _) (SimM.ite (SimM.skipOptionalByte _) ih)
+
+theorem SimM.readLine (fuel : Nat) : ∀ acc, SimM (readLine fuel acc) := by
+  induction fuel with
+  | zero => intro acc; exact SimM.pure _
+  | succ fuel ih =>
+    intro acc
+    unfold Scan.readLine
+    refine SimM.bind (SimM.attempt SimM.next) (fun r => ?_)
+    split
+    · exact SimM.pure _
+    · exact SimM.fail _
+    · exact SimM.ite (SimM.pure _) (SimM.ite (SimM.bind (SimM.skipOptionalByte _) (fun _ => SimM.pure _)) (ih _))
+
+theorem SimM.skipBlanks (fuel : Nat) : SimM (skipBlanks fuel) := by
+  induction fuel with
+  | zero => exact SimM.pure _
+  | succ fuel ih =>
+    unfold Scan.skipBlanks
+    refine SimM.bind (SimM.attempt SimM.peek) (fun r => ?_)
+    split
+    · exact SimM.pure _
+    · exact SimM.fail _
+    · exact SimM.ite (SimM.pure _) (SimM.bind SimM.skipByte (fun _ => ih))
+
+theorem SimM.readCommentKey (fuel : Nat) : ∀ acc, SimM (readCommentKey fuel acc) := by
+  induction fuel with
+  | zero => intro acc; exact SimM.pure _
+  | succ fuel ih =>
+    intro acc
+    unfold Scan.readCommentKey
+    refine SimM.bind (SimM.attempt SimM.peek) (fun r => ?_)
+    split
+    · exact SimM.pure _
+    · exact SimM.fail _
+    · exact SimM.ite (SimM.pure _) (SimM.bind SimM.skipByte (fun _ => SimM.ite (SimM.pure _) (ih _)))
+
+#print axioms eexec_begin_binary
+#print axioms eexec_begin_hex
+#print axioms eexec_stream
+#print axioms SimM.readStringBody
+#print axioms Sim.endEexec_at_end
 
 end PsVerif.Proofs.EexecStream
